@@ -480,7 +480,7 @@ impl Prop for Histories {
     }
     fn rule() -> &'static str {
         "bounded-exhaustive: every sequence of length <= L (quick 5, thorough 6; complete Reader and index-less reader: one more) over \
-         {iterate j items (j=0,1,2,all), a new iterator consumed through nth(s) (s=0,1 — what skip / step_by use), a new iterator consumed through last() and through count() (own alphabet, one op shorter), read_nth(i) i in 0..=n, seek(k) k in 0..=n, shape_count} on ShapeReader::with_shx; {iterate j \
+         {iterate j items (j=0,1,2,all), a new iterator consumed through nth(s) (s=0,1 — what skip / step_by use), a new iterator consumed through last() and through count() (own alphabets, one op shorter; ShapeReader and complete Reader), read_nth(i) i in 0..=n, seek(k) k in 0..=n, shape_count} on ShapeReader::with_shx; {iterate j \
          pairs, seek(k), shape_count} on the complete Reader (rows carry their index); {iterate j, read_nth(i)} on a reader without index; the ShapeReader and Reader histories also through from_path on real files (one op shorter, records of ~3 KB so that the file spans BufReader's 8 KiB buffer); files with \
          n=3 (thorough also 4) records of pairwise different sizes and of equal sizes. Oracle: reference state machine (read_nth(i) -> \
          record i / None; count constant; iteration after open / successful read_nth / seek(k) yields exactly 0.. / 0.. / k.. then ends; \
@@ -608,7 +608,33 @@ impl Prop for Histories {
                                 fail!("iteration-sequence", "{}: read(): {}", whole(&c.ops, k), m);
                             }
                         }
-                        Op::Nth(_) | Op::NthAs(_) | Op::IterAs | Op::IterLast | Op::IterCount => {}
+                        Op::IterLast => {
+                            let got = r.iter_shapes_and_records().last().map(|x| match x {
+                                Ok((sh, rec)) => {
+                                    let (si, ri) = (ident(&sh), match rec.get("idx") {
+                                        Some(dbase::FieldValue::Numeric(Some(v))) => Some(*v as usize),
+                                        _ => None,
+                                    });
+                                    if si == ri { Ok(si) } else { Err(format!("MISALIGNED shape {:?} paired with row {:?}", si, ri)) }
+                                }
+                                Err(e) => Err(err_str(&e)),
+                            });
+                            if let Some(Err(m)) = &got {
+                                if m.starts_with("MISALIGNED") {
+                                    fail!("pairs-misaligned", "{}: {}", whole(&c.ops, k), m);
+                                }
+                            }
+                            if let Err(m) = model.consume_all(Some(&got), None) {
+                                fail!("iteration-sequence", "{}: {}", whole(&c.ops, k), m);
+                            }
+                        }
+                        Op::IterCount => {
+                            let got = r.iter_shapes_and_records().count();
+                            if let Err(m) = model.consume_all(None, Some(got)) {
+                                fail!("iteration-sequence", "{}: {}", whole(&c.ops, k), m);
+                            }
+                        }
+                        Op::Nth(_) | Op::NthAs(_) | Op::IterAs => {}
                     }
                 }
             }
@@ -687,7 +713,33 @@ impl Prop for Histories {
                                 fail!("iteration-sequence", "{}: read(): {}", whole(&c.ops, k), m);
                             }
                         }
-                        Op::Nth(_) | Op::NthAs(_) | Op::IterAs | Op::IterLast | Op::IterCount => {}
+                        Op::IterLast => {
+                            let got = r.iter_shapes_and_records().last().map(|x| match x {
+                                Ok((sh, rec)) => {
+                                    let (si, ri) = (ident(&sh), match rec.get("idx") {
+                                        Some(dbase::FieldValue::Numeric(Some(v))) => Some(*v as usize),
+                                        _ => None,
+                                    });
+                                    if si == ri { Ok(si) } else { Err(format!("MISALIGNED shape {:?} paired with row {:?}", si, ri)) }
+                                }
+                                Err(e) => Err(err_str(&e)),
+                            });
+                            if let Some(Err(m)) = &got {
+                                if m.starts_with("MISALIGNED") {
+                                    fail!("pairs-misaligned", "{}: {}", whole(&c.ops, k), m);
+                                }
+                            }
+                            if let Err(m) = model.consume_all(Some(&got), None) {
+                                fail!("iteration-sequence", "{}: {}", whole(&c.ops, k), m);
+                            }
+                        }
+                        Op::IterCount => {
+                            let got = r.iter_shapes_and_records().count();
+                            if let Err(m) = model.consume_all(None, Some(got)) {
+                                fail!("iteration-sequence", "{}: {}", whole(&c.ops, k), m);
+                            }
+                        }
+                        Op::Nth(_) | Op::NthAs(_) | Op::IterAs => {}
                         }
                     }
                 }
@@ -733,7 +785,33 @@ impl Prop for Histories {
                                 fail!("iteration-sequence", "{}: read(): {}", whole(&c.ops, k), m);
                             }
                         }
-                        Op::Nth(_) | Op::NthAs(_) | Op::IterAs | Op::IterLast | Op::IterCount => {}
+                        Op::IterLast => {
+                            let got = r.iter_shapes_and_records().last().map(|x| match x {
+                                Ok((sh, rec)) => {
+                                    let (si, ri) = (ident(&sh), match rec.get("idx") {
+                                        Some(dbase::FieldValue::Numeric(Some(v))) => Some(*v as usize),
+                                        _ => None,
+                                    });
+                                    if si == ri { Ok(si) } else { Err(format!("MISALIGNED shape {:?} paired with row {:?}", si, ri)) }
+                                }
+                                Err(e) => Err(err_str(&e)),
+                            });
+                            if let Some(Err(m)) = &got {
+                                if m.starts_with("MISALIGNED") {
+                                    fail!("pairs-misaligned", "{}: {}", whole(&c.ops, k), m);
+                                }
+                            }
+                            if let Err(m) = model.consume_all(Some(&got), None) {
+                                fail!("iteration-sequence", "{}: {}", whole(&c.ops, k), m);
+                            }
+                        }
+                        Op::IterCount => {
+                            let got = r.iter_shapes_and_records().count();
+                            if let Err(m) = model.consume_all(None, Some(got)) {
+                                fail!("iteration-sequence", "{}: {}", whole(&c.ops, k), m);
+                            }
+                        }
+                        Op::Nth(_) | Op::NthAs(_) | Op::IterAs => {}
                     }
                 }
             }
@@ -852,6 +930,17 @@ impl EnumProp for Histories {
                 }
                 for l in 1..=len - 2 {
                     blocks.push(Block { n, equal, layout: 0, reader: 3, alphabet: a0l.clone(), len: l });
+                }
+                // the same on the complete Reader (pairs), in memory and by path
+                let mut a1l = vec![Op::Iter(1), Op::Iter(255), Op::IterLast, Op::IterCount, Op::IterSkip(1), Op::ReadAll];
+                for i in 0..=n {
+                    a1l.push(Op::Seek(i));
+                }
+                for l in 1..=len - 1 {
+                    blocks.push(Block { n, equal, layout: 0, reader: 1, alphabet: a1l.clone(), len: l });
+                }
+                for l in 1..=len - 2 {
+                    blocks.push(Block { n, equal, layout: 0, reader: 4, alphabet: a1l.clone(), len: l });
                 }
                 // random access (refused today) in the histories of a reader without index
                 let mut a2n = a2.clone();
